@@ -1,1 +1,1696 @@
-//! C37: not implemented yet.
+//! C37 — Only registered, usable sources influence the clock.
+//!
+//! Engine E-SCHED: a controlled scheduler drives the REAL generic
+//! `TimeSyncControllerWrapper<_>` (ntp-proto/src/algorithm/mod.rs). The harness is the
+//! only executor: source "threads" are scripts of wrapper calls
+//! (`handle_measurement`, `set_usable(true/false)`, drop, late `add_source`), the
+//! controller's `run()` future is polled by hand with a no-op waker (hook H5 makes every
+//! loop iteration yield once, so one poll == at most one message / one timer expiry), and
+//! virtual time moves only through `tokio::time::advance`. A stateless depth-first search
+//! enumerates EVERY maximal schedule of a case (no sampling, no preemption bound): every
+//! interleaving of the scripts' operations with every placement of the loop's steps and
+//! of the timer expiry; where the timer has expired while messages are queued both
+//! outcomes of tokio's randomised `select!` are explored (the wanted branch is obtained
+//! by re-executing the schedule until the coin falls that way).
+//!
+//! Two controllers sit under the wrapper, both behind the transparent recording proxy
+//! `Rec<T>` (harness code; logs every `InternalTimeSyncController` call, every steering
+//! fan-out and tags every produced measurement message with its production index):
+//!   * `Stub`   – a trivial reference controller (exact observation of the delivery order);
+//!   * the real `KalmanClockController<MockClock>` (recording mock clock).
+//!
+//! Oracle (written from the statement; the linear order is the harness's own record of
+//! the order in which it issued the operations — operations are atomic here, so that is
+//! the only linearisation that respects real time):
+//!   * every call the controller receives is the oldest issued-but-undelivered operation
+//!     (=> per-source FIFO, measurements in production order, exactly once, and no source
+//!     overtaking a report another source completed earlier);
+//!   * nothing is delivered for an id after its `remove_source`;
+//!   * at quiescence every issued operation has been delivered;
+//!   * every `used_sources` the controller reports (message- or timer-driven) is a subset
+//!     of {registered and not yet removed, last reported usable == true} evaluated on the
+//!     issued order up to the operation being processed;
+//!   * stale data for a removed id (last message of that id + `source_update(id,true)`),
+//!     applied to a clone of the real controller right after each removal, changes
+//!     nothing (Debug image identical, no clock call, empty update);
+//!   * auxiliary (subject integrity, beyond the literal statement): a steering message is
+//!     fanned out exactly once to every live source controller, and
+//!     `synchronization_state().1` mirrors the last reported used set.
+use std::cell::{Cell, RefCell};
+use std::collections::{BTreeMap, BTreeSet, HashSet};
+use std::future::Future;
+use std::marker::PhantomData;
+use std::task::{Context, Waker};
+use std::time::Duration;
+
+use super::common::{self, Ctx};
+use crate::algorithm::verif_probe as h5;
+use crate::algorithm::{
+    AlgorithmConfig, InternalMeasurement, InternalSourceController, InternalStateUpdate,
+    InternalTimeSyncController, KalmanClockController, Measurement, ObservableSourceTimedata,
+    SourceController, TimeSyncController, TimeSyncControllerWrapper,
+};
+use crate::clock::NtpClock;
+use crate::config::{SourceConfig, SynchronizationConfig};
+use crate::time_types::{NtpDuration, NtpTimestamp};
+use crate::{ClockId, NtpLeapIndicator, PollInterval};
+
+// ---------------------------------------------------------------------------------
+// alphabet
+// ---------------------------------------------------------------------------------
+
+#[derive(Clone, Copy, PartialEq, Eq, Debug, Hash, PartialOrd, Ord)]
+enum Op {
+    /// late registration (`add_source` / `add_one_way_source` while `run()` is live)
+    R,
+    /// one measurement (two-way: outgoing + incoming packet pair)
+    M,
+    /// `set_usable(true)`
+    Up,
+    /// `set_usable(false)`
+    Un,
+    /// drop the source controller wrapper
+    D,
+}
+
+impl Op {
+    fn ch(self) -> char {
+        match self {
+            Op::R => 'R',
+            Op::M => 'M',
+            Op::Up => 'U',
+            Op::Un => 'u',
+            Op::D => 'D',
+        }
+    }
+    fn from_ch(c: char) -> Option<Op> {
+        Some(match c {
+            'R' => Op::R,
+            'M' => Op::M,
+            'U' => Op::Up,
+            'u' => Op::Un,
+            'D' => Op::D,
+            _ => return None,
+        })
+    }
+}
+
+#[derive(Clone, Copy, PartialEq, Eq, Debug, Hash)]
+enum Choice {
+    /// next operation of source script i
+    Src(u8),
+    /// one poll of `run()` (exactly one of message / timer is ready)
+    L,
+    /// one poll of `run()`, both ready, the message branch is taken
+    Lm,
+    /// one poll of `run()`, both ready, the timer branch is taken
+    Lt,
+    /// virtual time passes the single-shot timer's deadline
+    T,
+}
+
+impl Choice {
+    fn token(self) -> String {
+        match self {
+            Choice::Src(i) => ((b'a' + i) as char).to_string(),
+            Choice::L => "L".into(),
+            Choice::Lm => "Lm".into(),
+            Choice::Lt => "Lt".into(),
+            Choice::T => "T".into(),
+        }
+    }
+    fn parse(s: &str) -> Option<Choice> {
+        Some(match s {
+            "L" => Choice::L,
+            "Lm" => Choice::Lm,
+            "Lt" => Choice::Lt,
+            "T" => Choice::T,
+            "a" => Choice::Src(0),
+            "b" => Choice::Src(1),
+            "c" => Choice::Src(2),
+            _ => return None,
+        })
+    }
+}
+
+const KIND_STUB: u8 = 0;
+const KIND_KALMAN: u8 = 1;
+
+#[derive(Clone, Debug, Hash, PartialEq, Eq)]
+struct Src {
+    oneway: bool,
+    script: Vec<Op>,
+}
+
+#[derive(Clone, Debug, Hash, PartialEq, Eq)]
+struct Case {
+    kind: u8,
+    /// 0: the timer never expires inside the explored window (T is not offered; the stub
+    ///    never requests one); 1: T offered, the stub requests a timer on A's first
+    ///    measurement only (Kalman: whenever the real controller starts a slew);
+    ///    2: T offered, the stub requests a timer on every measurement of A
+    timer: u8,
+    srcs: Vec<Src>,
+}
+
+impl Case {
+    fn text(&self) -> String {
+        let mut s = format!("{}.t{}", if self.kind == KIND_STUB { "stub" } else { "kalman" }, self.timer);
+        for (i, src) in self.srcs.iter().enumerate() {
+            s.push('|');
+            s.push((b'A' + i as u8) as char);
+            s.push(if src.oneway { '1' } else { '2' });
+            s.push(':');
+            for op in &src.script {
+                s.push(op.ch());
+            }
+        }
+        s
+    }
+    fn parse(s: &str) -> Option<Case> {
+        let mut parts = s.split('|');
+        let (k, t) = parts.next()?.split_once(".t")?;
+        let kind = match k {
+            "stub" => KIND_STUB,
+            "kalman" => KIND_KALMAN,
+            _ => return None,
+        };
+        let timer: u8 = t.parse().ok()?;
+        let mut srcs = Vec::new();
+        for p in parts {
+            let (head, script) = p.split_once(':')?;
+            let oneway = head.ends_with('1');
+            let script = script.chars().map(Op::from_ch).collect::<Option<Vec<_>>>()?;
+            srcs.push(Src { oneway, script });
+        }
+        Some(Case { kind, timer, srcs })
+    }
+}
+
+fn id_of(src: usize) -> u64 {
+    11 + src as u64
+}
+
+// ---------------------------------------------------------------------------------
+// thread-local trace of one execution
+// ---------------------------------------------------------------------------------
+
+#[derive(Clone, Debug, PartialEq, Eq, Hash)]
+enum Ev {
+    // --- harness markers
+    Step(Choice),
+    Drain,
+    Issue { src: u8, op: Op },
+    Mirror { used: Vec<u64> },
+    // --- observed at the InternalTimeSyncController / InternalSourceController seam
+    Add { id: u64, oneway: bool },
+    Produced { id: u64, tag: u32 },
+    Msg { id: u64, tag: u32, call: u32, used: Option<Vec<u64>>, steer: bool, next_ms: Option<u64> },
+    Usable { id: u64, usable: bool },
+    Remove { id: u64 },
+    Timer { call: u32, used: Option<Vec<u64>>, steer: bool, next_ms: Option<u64> },
+    Fan { src: u64, call: u32 },
+    // kind: 1 set_frequency 2 step_clock 3 disable_ntp_algorithm 4 error_estimate 5 status
+    Clock { kind: u8, a: u64, b: u64 },
+    Stale { id: u64, what: String },
+}
+
+thread_local! {
+    static LOG: RefCell<Vec<Ev>> = const { RefCell::new(Vec::new()) };
+    static SHADOW: Cell<bool> = const { Cell::new(false) };
+    static SHADOW_CALLS: Cell<u32> = const { Cell::new(0) };
+    static NOW: Cell<u64> = const { Cell::new(0) };
+    static CALLS: Cell<u32> = const { Cell::new(0) };
+}
+
+fn log(ev: Ev) {
+    if SHADOW.with(Cell::get) {
+        if matches!(ev, Ev::Clock { .. }) {
+            SHADOW_CALLS.with(|c| c.set(c.get() + 1));
+        }
+        return;
+    }
+    LOG.with(|l| l.borrow_mut().push(ev));
+}
+
+fn log_len() -> usize {
+    LOG.with(|l| l.borrow().len())
+}
+
+fn next_call() -> u32 {
+    CALLS.with(|c| {
+        let v = c.get();
+        c.set(v + 1);
+        v
+    })
+}
+
+fn reset_thread_state() {
+    LOG.with(|l| l.borrow_mut().clear());
+    SHADOW.with(|s| s.set(false));
+    SHADOW_CALLS.with(|s| s.set(0));
+    CALLS.with(|s| s.set(0));
+    NOW.with(|n| n.set(1000u64 << 32));
+}
+
+// ---------------------------------------------------------------------------------
+// recording mock clock
+// ---------------------------------------------------------------------------------
+
+#[derive(Debug, Clone)]
+struct MockClock;
+
+fn clock_now() -> NtpTimestamp {
+    NtpTimestamp::from_fixed_int(NOW.with(Cell::get))
+}
+
+impl NtpClock for MockClock {
+    type Error = std::io::Error;
+
+    fn now(&self) -> Result<NtpTimestamp, Self::Error> {
+        Ok(clock_now())
+    }
+    fn set_frequency(&self, freq: f64) -> Result<NtpTimestamp, Self::Error> {
+        log(Ev::Clock { kind: 1, a: freq.to_bits(), b: 0 });
+        Ok(clock_now())
+    }
+    fn get_frequency(&self) -> Result<f64, Self::Error> {
+        Ok(0.0)
+    }
+    fn step_clock(&self, offset: NtpDuration) -> Result<NtpTimestamp, Self::Error> {
+        log(Ev::Clock { kind: 2, a: offset.to_seconds().to_bits(), b: 0 });
+        Ok(clock_now())
+    }
+    fn disable_ntp_algorithm(&self) -> Result<(), Self::Error> {
+        log(Ev::Clock { kind: 3, a: 0, b: 0 });
+        Ok(())
+    }
+    fn error_estimate_update(&self, est_error: NtpDuration, max_error: NtpDuration) -> Result<(), Self::Error> {
+        log(Ev::Clock { kind: 4, a: est_error.to_seconds().to_bits(), b: max_error.to_seconds().to_bits() });
+        Ok(())
+    }
+    fn status_update(&self, leap_status: NtpLeapIndicator) -> Result<(), Self::Error> {
+        log(Ev::Clock { kind: 5, a: leap_status as u64, b: 0 });
+        Ok(())
+    }
+}
+
+// ---------------------------------------------------------------------------------
+// transparent recording proxy between the wrapper under test and a controller
+// ---------------------------------------------------------------------------------
+
+#[derive(Debug, Clone)]
+struct Tagged<X> {
+    tag: u32,
+    inner: X,
+}
+
+/// "what happens if data for a removed id still arrives" – evaluated on a copy.
+trait Twin: InternalTimeSyncController {
+    fn stale_probe(&self, id: ClockId, stale: Option<Self::SourceMessage>) -> Option<String>;
+}
+
+struct Rec<T: InternalTimeSyncController> {
+    inner: T,
+    last: Vec<(u64, T::SourceMessage)>,
+}
+
+struct RecSrc<S> {
+    id: u64,
+    produced: u32,
+    inner: S,
+}
+
+fn ids(v: &Option<Vec<ClockId>>) -> Option<Vec<u64>> {
+    v.as_ref().map(|v| {
+        let mut o: Vec<u64> = v.iter().map(|c| c.0).collect();
+        o.sort_unstable();
+        o
+    })
+}
+
+impl<S: InternalSourceController> InternalSourceController for RecSrc<S> {
+    type ControllerMessage = Tagged<S::ControllerMessage>;
+    type SourceMessage = Tagged<S::SourceMessage>;
+    type MeasurementDelay = S::MeasurementDelay;
+
+    fn handle_message(&mut self, message: Self::ControllerMessage) {
+        log(Ev::Fan { src: self.id, call: message.tag });
+        self.inner.handle_message(message.inner);
+    }
+
+    fn handle_measurement(
+        &mut self,
+        measurement: InternalMeasurement<Self::MeasurementDelay>,
+    ) -> Option<Self::SourceMessage> {
+        let inner = self.inner.handle_measurement(measurement)?;
+        let tag = self.produced;
+        self.produced += 1;
+        log(Ev::Produced { id: self.id, tag });
+        Some(Tagged { tag, inner })
+    }
+
+    fn desired_poll_interval(&self) -> PollInterval {
+        self.inner.desired_poll_interval()
+    }
+
+    fn observe(&self) -> ObservableSourceTimedata {
+        self.inner.observe()
+    }
+}
+
+impl<T> Rec<T>
+where
+    T: InternalTimeSyncController,
+{
+    fn wrap_update(
+        call: u32,
+        upd: InternalStateUpdate<T::ControllerMessage>,
+    ) -> InternalStateUpdate<Tagged<T::ControllerMessage>> {
+        InternalStateUpdate {
+            source_message: upd.source_message.map(|inner| Tagged { tag: call, inner }),
+            time_snapshot: upd.time_snapshot,
+            used_sources: upd.used_sources,
+            next_update: upd.next_update,
+        }
+    }
+}
+
+impl<T> InternalTimeSyncController for Rec<T>
+where
+    T: InternalTimeSyncController<Clock = MockClock> + Twin,
+{
+    type Clock = MockClock;
+    type AlgorithmConfig = T::AlgorithmConfig;
+    type ControllerMessage = Tagged<T::ControllerMessage>;
+    type SourceMessage = Tagged<T::SourceMessage>;
+    type NtpSourceController = RecSrc<T::NtpSourceController>;
+    type OneWaySourceController = RecSrc<T::OneWaySourceController>;
+
+    fn new(
+        clock: MockClock,
+        synchronization_config: SynchronizationConfig,
+        algorithm_config: Self::AlgorithmConfig,
+    ) -> Result<Self, std::io::Error> {
+        Ok(Rec { inner: T::new(clock, synchronization_config, algorithm_config)?, last: Vec::new() })
+    }
+
+    fn take_control(&mut self) -> Result<(), std::io::Error> {
+        self.inner.take_control()
+    }
+
+    fn add_source(&mut self, id: ClockId, source_config: SourceConfig) -> Self::NtpSourceController {
+        log(Ev::Add { id: id.0, oneway: false });
+        RecSrc { id: id.0, produced: 0, inner: self.inner.add_source(id, source_config) }
+    }
+
+    fn add_one_way_source(
+        &mut self,
+        id: ClockId,
+        source_config: SourceConfig,
+        measurement_noise_estimate: f64,
+        measurement_accuracy_estimate: f64,
+        period: Option<f64>,
+    ) -> Self::OneWaySourceController {
+        log(Ev::Add { id: id.0, oneway: true });
+        RecSrc {
+            id: id.0,
+            produced: 0,
+            inner: self.inner.add_one_way_source(
+                id,
+                source_config,
+                measurement_noise_estimate,
+                measurement_accuracy_estimate,
+                period,
+            ),
+        }
+    }
+
+    fn remove_source(&mut self, id: ClockId) {
+        log(Ev::Remove { id: id.0 });
+        self.inner.remove_source(id);
+        let stale = self.last.iter().rev().find(|(i, _)| *i == id.0).map(|(_, m)| m.clone());
+        if let Some(what) = self.inner.stale_probe(id, stale) {
+            log(Ev::Stale { id: id.0, what });
+        }
+    }
+
+    fn source_update(&mut self, id: ClockId, usable: bool) {
+        log(Ev::Usable { id: id.0, usable });
+        self.inner.source_update(id, usable);
+    }
+
+    fn source_message(
+        &mut self,
+        id: ClockId,
+        message: Self::SourceMessage,
+    ) -> InternalStateUpdate<Self::ControllerMessage> {
+        let call = next_call();
+        if let Some(e) = self.last.iter_mut().find(|(i, _)| *i == id.0) {
+            e.1 = message.inner.clone();
+        } else {
+            self.last.push((id.0, message.inner.clone()));
+        }
+        let upd = self.inner.source_message(id, message.inner);
+        log(Ev::Msg {
+            id: id.0,
+            tag: message.tag,
+            call,
+            used: ids(&upd.used_sources),
+            steer: upd.source_message.is_some(),
+            next_ms: upd.next_update.map(|d| d.as_millis() as u64),
+        });
+        Self::wrap_update(call, upd)
+    }
+
+    fn time_update(&mut self) -> InternalStateUpdate<Self::ControllerMessage> {
+        let call = next_call();
+        let upd = self.inner.time_update();
+        log(Ev::Timer {
+            call,
+            used: ids(&upd.used_sources),
+            steer: upd.source_message.is_some(),
+            next_ms: upd.next_update.map(|d| d.as_millis() as u64),
+        });
+        Self::wrap_update(call, upd)
+    }
+}
+
+// ---------------------------------------------------------------------------------
+// stub controller: the simplest correct controller (keeps the flags it was told)
+// ---------------------------------------------------------------------------------
+
+struct Stub {
+    regs: BTreeMap<u64, bool>,
+}
+
+struct StubSrc<D>(PhantomData<D>);
+
+impl<D: std::fmt::Debug + Copy + Clone + Send + 'static> InternalSourceController for StubSrc<D> {
+    type ControllerMessage = u8;
+    type SourceMessage = i8;
+    type MeasurementDelay = D;
+
+    fn handle_message(&mut self, _message: u8) {}
+    fn handle_measurement(&mut self, measurement: InternalMeasurement<D>) -> Option<i8> {
+        // the harness smuggles the stub's answer policy in `precision`:
+        // bit0 = answer with a steering message, bit1 = request a timer
+        Some(measurement.precision)
+    }
+    fn desired_poll_interval(&self) -> PollInterval {
+        PollInterval::default()
+    }
+    fn observe(&self) -> ObservableSourceTimedata {
+        ObservableSourceTimedata::default()
+    }
+}
+
+impl InternalTimeSyncController for Stub {
+    type Clock = MockClock;
+    type AlgorithmConfig = AlgorithmConfig;
+    type ControllerMessage = u8;
+    type SourceMessage = i8;
+    type NtpSourceController = StubSrc<NtpDuration>;
+    type OneWaySourceController = StubSrc<()>;
+
+    fn new(_c: MockClock, _s: SynchronizationConfig, _a: AlgorithmConfig) -> Result<Self, std::io::Error> {
+        Ok(Stub { regs: BTreeMap::new() })
+    }
+    fn take_control(&mut self) -> Result<(), std::io::Error> {
+        Ok(())
+    }
+    fn add_source(&mut self, id: ClockId, _c: SourceConfig) -> StubSrc<NtpDuration> {
+        self.regs.insert(id.0, false);
+        StubSrc(PhantomData)
+    }
+    fn add_one_way_source(&mut self, id: ClockId, _c: SourceConfig, _n: f64, _a: f64, _p: Option<f64>) -> StubSrc<()> {
+        self.regs.insert(id.0, false);
+        StubSrc(PhantomData)
+    }
+    fn remove_source(&mut self, id: ClockId) {
+        self.regs.remove(&id.0);
+    }
+    fn source_update(&mut self, id: ClockId, usable: bool) {
+        if let Some(e) = self.regs.get_mut(&id.0) {
+            *e = usable;
+        }
+    }
+    fn source_message(&mut self, _id: ClockId, flags: i8) -> InternalStateUpdate<u8> {
+        InternalStateUpdate {
+            source_message: (flags & 1 != 0).then_some(1),
+            time_snapshot: None,
+            used_sources: Some(self.regs.iter().filter(|(_, u)| **u).map(|(i, _)| ClockId(*i)).collect()),
+            next_update: (flags & 2 != 0).then_some(Duration::from_secs(1)),
+        }
+    }
+    fn time_update(&mut self) -> InternalStateUpdate<u8> {
+        InternalStateUpdate { source_message: Some(2), ..InternalStateUpdate::default() }
+    }
+}
+
+impl Twin for Stub {
+    fn stale_probe(&self, _id: ClockId, _stale: Option<i8>) -> Option<String> {
+        None
+    }
+}
+
+impl Twin for KalmanClockController<MockClock> {
+    fn stale_probe(&self, id: ClockId, stale: Option<Self::SourceMessage>) -> Option<String> {
+        SHADOW_CALLS.with(|c| c.set(0));
+        SHADOW.with(|s| s.set(true));
+        let mut twin = self.clone();
+        let before = format!("{twin:?}");
+        twin.source_update(id, true);
+        let mut produced = false;
+        if let Some(m) = stale {
+            let u = twin.source_message(id, m);
+            produced = u.source_message.is_some()
+                || u.used_sources.is_some()
+                || u.next_update.is_some()
+                || u.time_snapshot.is_some();
+        }
+        let after = format!("{twin:?}");
+        SHADOW.with(|s| s.set(false));
+        let calls = SHADOW_CALLS.with(Cell::get);
+        if before != after {
+            Some("controller state changed".to_string())
+        } else if produced {
+            Some("a state update was produced".to_string())
+        } else if calls != 0 {
+            Some(format!("{calls} clock call(s)"))
+        } else {
+            None
+        }
+    }
+}
+
+// ---------------------------------------------------------------------------------
+// executor
+// ---------------------------------------------------------------------------------
+
+type Wrapper<T> = TimeSyncControllerWrapper<Rec<T>>;
+
+enum Handle<T>
+where
+    T: InternalTimeSyncController<Clock = MockClock> + Twin,
+{
+    Two(<Wrapper<T> as TimeSyncController>::NtpSourceController),
+    One(<Wrapper<T> as TimeSyncController>::OneWaySourceController),
+}
+
+trait Driver {
+    /// pick the index of one of `enabled` at decision `depth`; `None` = stop scheduling
+    /// here and let the loop run to quiescence (replay of a non-maximal trace)
+    fn pick(&mut self, depth: usize, enabled: &[Choice]) -> Result<Option<usize>, String>;
+}
+
+enum Abort {
+    /// tokio's select! coin fell on the other branch at this step: run the same schedule again
+    Retry(usize),
+    /// the driver could not follow its prescribed schedule here
+    Driver(String),
+    Machinery(String),
+}
+
+fn base_measurement(id: ClockId) -> Measurement {
+    Measurement {
+        sender_id: id,
+        receiver_id: ClockId::SYSTEM,
+        sender_ts: NtpTimestamp::default(),
+        receiver_ts: NtpTimestamp::default(),
+        root_delay: NtpDuration::from_seconds(0.0),
+        root_dispersion: NtpDuration::from_seconds(0.0),
+        leap: NtpLeapIndicator::NoWarning,
+        precision: 0,
+    }
+}
+
+/// (offset seconds, round trip seconds, precision byte) of the measurements of source `src`
+fn measurement_params(case: &Case, src: usize, nth: usize) -> (f64, f64, i8) {
+    let kind = case.kind;
+    if kind == KIND_STUB {
+        // precision carries the stub's answer policy: A steers (+ requests the timer as
+        // the case's timer policy says), B answers silently, C steers only
+        let timer = match case.timer {
+            0 => false,
+            1 => nth == 0,
+            _ => true,
+        };
+        (0.0, 1e-3, [if timer { 3i8 } else { 1 }, 0, 1][src % 3])
+    } else {
+        // A and C: 5 ms off with a tight round trip => the real controller starts a slew
+        // (set_frequency, FreqChange fan-out, next_update timer); B (one way): 1 ms off
+        ([5.0e-3, 1.0e-3, 5.2e-3][src % 3], 1e-6, 0)
+    }
+}
+
+fn do_measure<T>(h: &mut Handle<T>, case: &Case, src: usize, nth: usize)
+where
+    T: InternalTimeSyncController<Clock = MockClock> + Twin,
+{
+    // the local clock advances 1/64 s per measurement (in issue order): close enough that
+    // initial-phase snapshots (frequency variance 100) of several sources stay selectable together
+    let now = NOW.with(|n| {
+        let v = n.get() + (1u64 << 26);
+        n.set(v);
+        v
+    });
+    let t4 = NtpTimestamp::from_fixed_int(now);
+    let (off, rtt, precision) = measurement_params(case, src, nth);
+    let id = ClockId(id_of(src));
+    match h {
+        Handle::Two(w) => {
+            let t1 = t4 + NtpDuration::from_seconds(-rtt);
+            let t2 = t1 + NtpDuration::from_seconds(rtt / 2.0 + off);
+            let t3 = t2;
+            let mut out = base_measurement(id);
+            out.sender_id = ClockId::SYSTEM;
+            out.receiver_id = id;
+            out.sender_ts = t1;
+            out.receiver_ts = t2;
+            out.precision = precision;
+            w.handle_measurement(out);
+            let mut inc = base_measurement(id);
+            inc.sender_ts = t3;
+            inc.receiver_ts = t4;
+            inc.precision = precision;
+            w.handle_measurement(inc);
+        }
+        Handle::One(w) => {
+            let mut m = base_measurement(id);
+            m.sender_ts = t4 + NtpDuration::from_seconds(off);
+            m.receiver_ts = t4;
+            m.precision = precision;
+            w.handle_measurement(m);
+        }
+    }
+}
+
+fn register<T>(ctrl: &Wrapper<T>, case: &Case, i: usize) -> Handle<T>
+where
+    T: InternalTimeSyncController<Clock = MockClock> + Twin,
+{
+    let id = ClockId(id_of(i));
+    if case.srcs[i].oneway {
+        Handle::One(ctrl.add_one_way_source(id, SourceConfig::default(), 1e-6, 1e-6, None))
+    } else {
+        Handle::Two(ctrl.add_source(id, SourceConfig::default()))
+    }
+}
+
+fn algo_config(kind: u8) -> AlgorithmConfig {
+    if kind == KIND_KALMAN {
+        // a one-way source's initial snapshot has a 1 s^2 variance; let it take part in
+        // the selection without an 8-sample warm-up
+        AlgorithmConfig { maximum_source_uncertainty: 10.0, ..AlgorithmConfig::default() }
+    } else {
+        AlgorithmConfig::default()
+    }
+}
+
+fn sync_config() -> SynchronizationConfig {
+    SynchronizationConfig { minimum_agreeing_sources: 1, ..SynchronizationConfig::default() }
+}
+
+/// What one poll of `run()` did, read off the trace.
+struct PollScan {
+    deliveries: i32,
+    timers: u32,
+    first_is_timer: Option<bool>,
+}
+
+struct SchedState {
+    q: i32,
+    armed: bool,
+    expired: bool,
+    stalled: bool,
+    deadline: tokio::time::Instant,
+}
+
+fn scan_poll(from: usize, st: &mut SchedState, now: tokio::time::Instant) -> PollScan {
+    LOG.with(|l| {
+        let l = l.borrow();
+        let mut r = PollScan { deliveries: 0, timers: 0, first_is_timer: None };
+        for ev in &l[from..] {
+            match ev {
+                Ev::Msg { next_ms, .. } => {
+                    r.deliveries += 1;
+                    r.first_is_timer.get_or_insert(false);
+                    if let Some(ms) = next_ms {
+                        st.armed = true;
+                        st.expired = false;
+                        st.deadline = now + Duration::from_millis(*ms);
+                    }
+                }
+                Ev::Usable { .. } | Ev::Remove { .. } => {
+                    r.deliveries += 1;
+                    r.first_is_timer.get_or_insert(false);
+                }
+                Ev::Timer { next_ms, .. } => {
+                    r.timers += 1;
+                    r.first_is_timer.get_or_insert(true);
+                    st.armed = false;
+                    st.expired = false;
+                    if let Some(ms) = next_ms {
+                        st.armed = true;
+                        st.deadline = now + Duration::from_millis(*ms);
+                    }
+                }
+                _ => {}
+            }
+        }
+        r
+    })
+}
+
+async fn run_once<T>(case: &Case, drv: &mut dyn Driver) -> Result<(), Abort>
+where
+    T: InternalTimeSyncController<Clock = MockClock, AlgorithmConfig = AlgorithmConfig> + Twin,
+{
+    let n = case.srcs.len();
+    let ctrl: Wrapper<T> = <Wrapper<T> as TimeSyncController>::new(MockClock, sync_config(), algo_config(case.kind))
+        .map_err(|e| Abort::Machinery(format!("new: {e}")))?;
+    ctrl.take_control().map_err(|e| Abort::Machinery(format!("take_control: {e}")))?;
+    let mut handles: Vec<Option<Handle<T>>> = Vec::with_capacity(n);
+    let mut pc = vec![0usize; n];
+    let mut mcount = vec![0usize; n];
+    for i in 0..n {
+        if case.srcs[i].script.first() == Some(&Op::R) {
+            handles.push(None);
+        } else {
+            handles.push(Some(register(&ctrl, case, i)));
+        }
+    }
+    h5::reset_iterations();
+    h5::arm(true);
+    let mut run = std::pin::pin!(tokio::task::unconstrained(ctrl.run()));
+    let mut cx = Context::from_waker(Waker::noop());
+    if run.as_mut().poll(&mut cx).is_ready() {
+        return Err(Abort::Machinery("run() returned".into()));
+    }
+    let mut st = SchedState { q: 0, armed: false, expired: false, stalled: false, deadline: tokio::time::Instant::now() };
+    let mut enabled: Vec<Choice> = Vec::with_capacity(8);
+    let mut depth = 0usize;
+    loop {
+        enabled.clear();
+        for i in 0..n {
+            if pc[i] < case.srcs[i].script.len() {
+                enabled.push(Choice::Src(i as u8));
+            }
+        }
+        if (st.q > 0 || st.expired) && !st.stalled {
+            if st.q > 0 && st.expired {
+                enabled.push(Choice::Lm);
+                enabled.push(Choice::Lt);
+            } else {
+                enabled.push(Choice::L);
+            }
+        }
+        if case.timer != 0 && st.armed && !st.expired {
+            enabled.push(Choice::T);
+        }
+        if enabled.is_empty() {
+            break;
+        }
+        let Some(k) = drv.pick(depth, &enabled).map_err(Abort::Driver)? else {
+            break;
+        };
+        let c = enabled[k];
+        depth += 1;
+        log(Ev::Step(c));
+        match c {
+            Choice::Src(i) => {
+                let i = i as usize;
+                let op = case.srcs[i].script[pc[i]];
+                pc[i] += 1;
+                log(Ev::Issue { src: i as u8, op });
+                let from = log_len();
+                match op {
+                    Op::R => handles[i] = Some(register(&ctrl, case, i)),
+                    Op::M => {
+                        if let Some(h) = handles[i].as_mut() {
+                            do_measure(h, case, i, mcount[i]);
+                            mcount[i] += 1;
+                        }
+                    }
+                    Op::Up | Op::Un => match handles[i].as_mut() {
+                        Some(Handle::Two(w)) => w.set_usable(op == Op::Up),
+                        Some(Handle::One(w)) => w.set_usable(op == Op::Up),
+                        None => {}
+                    },
+                    Op::D => handles[i] = None,
+                }
+                let sent = match op {
+                    Op::R => 0,
+                    Op::M => LOG.with(|l| l.borrow()[from..].iter().filter(|e| matches!(e, Ev::Produced { .. })).count() as i32),
+                    _ => 1,
+                };
+                if sent > 0 {
+                    st.q += sent;
+                    st.stalled = false;
+                }
+            }
+            Choice::T => {
+                let now = tokio::time::Instant::now();
+                let d = st.deadline.saturating_duration_since(now) + Duration::from_millis(1);
+                tokio::time::advance(d).await;
+                st.expired = true;
+                st.stalled = false;
+            }
+            Choice::L | Choice::Lm | Choice::Lt => {
+                let from = log_len();
+                let now = tokio::time::Instant::now();
+                if run.as_mut().poll(&mut cx).is_ready() {
+                    return Err(Abort::Machinery("run() returned".into()));
+                }
+                let scan = scan_poll(from, &mut st, now);
+                st.q -= scan.deliveries;
+                match (c, scan.first_is_timer) {
+                    (Choice::Lt, Some(false)) | (Choice::Lm, Some(true)) => return Err(Abort::Retry(depth)),
+                    _ => {}
+                }
+                if scan.deliveries == 0 && scan.timers == 0 {
+                    st.stalled = true;
+                }
+                let mut used: Vec<u64> = ctrl.synchronization_state().1.iter().map(|c| c.0).collect();
+                used.sort_unstable();
+                log(Ev::Mirror { used });
+            }
+        }
+    }
+    // drain: nothing may be left behind once every script has finished
+    let mut idle = 0;
+    let mut guard = 0;
+    while idle < 2 && guard < 64 {
+        log(Ev::Drain);
+        let from = log_len();
+        let now = tokio::time::Instant::now();
+        if run.as_mut().poll(&mut cx).is_ready() {
+            return Err(Abort::Machinery("run() returned".into()));
+        }
+        let scan = scan_poll(from, &mut st, now);
+        if scan.deliveries == 0 && scan.timers == 0 {
+            idle += 1;
+        } else {
+            idle = 0;
+        }
+        guard += 1;
+    }
+    h5::arm(false);
+    Ok(())
+}
+
+struct Exec {
+    log: Vec<Ev>,
+    retries: u32,
+    /// Some => the schedule could not be executed as prescribed / machinery trouble
+    error: Option<String>,
+    /// Some => code under test panicked
+    panic: Option<String>,
+    steps: usize,
+}
+
+fn execute(rt: &tokio::runtime::Runtime, case: &Case, drv: &mut dyn Driver) -> Exec {
+    let mut retries = 0u32;
+    let mut fail_depth = 0usize;
+    let mut fail_count = 0u32;
+    loop {
+        reset_thread_state();
+        let r = common::catch(|| {
+            rt.block_on(async {
+                if case.kind == KIND_STUB {
+                    run_once::<Stub>(case, drv).await
+                } else {
+                    run_once::<KalmanClockController<MockClock>>(case, drv).await
+                }
+            })
+        });
+        h5::arm(false);
+        SHADOW.with(|s| s.set(false));
+        let log = LOG.with(|l| std::mem::take(&mut *l.borrow_mut()));
+        let steps = log.iter().filter(|e| matches!(e, Ev::Step(_))).count();
+        match r {
+            Ok(Ok(())) => return Exec { log, retries, error: None, panic: None, steps },
+            Ok(Err(Abort::Retry(d))) => {
+                retries += 1;
+                // a coin that can fall both ways fails 64 times in a row at the same step
+                // with probability 2^-64; reaching a deeper step resets the count
+                if d > fail_depth {
+                    fail_depth = d;
+                    fail_count = 1;
+                } else if d == fail_depth {
+                    fail_count += 1;
+                }
+                if fail_count > 64 || retries > 1_000_000 {
+                    return Exec { log, retries, error: Some(format!("select! branch never taken at step {d}")), panic: None, steps };
+                }
+            }
+            Ok(Err(Abort::Driver(e))) => return Exec { log, retries, error: Some(format!("driver: {e}")), panic: None, steps },
+            Ok(Err(Abort::Machinery(e))) => return Exec { log, retries, error: Some(format!("machinery: {e}")), panic: None, steps },
+            Err(p) => return Exec { log, retries, error: None, panic: Some(p), steps },
+        }
+    }
+}
+
+fn new_runtime() -> tokio::runtime::Runtime {
+    tokio::runtime::Builder::new_current_thread()
+        .enable_time()
+        .start_paused(true)
+        .build()
+        .expect("runtime")
+}
+
+// ---------------------------------------------------------------------------------
+// oracle
+// ---------------------------------------------------------------------------------
+
+#[derive(Clone, Copy, PartialEq, Eq, Debug)]
+enum Item {
+    M(u64, u32),
+    U(u64, bool),
+    D(u64),
+}
+
+impl Item {
+    fn id(self) -> u64 {
+        match self {
+            Item::M(i, _) | Item::U(i, _) | Item::D(i) => i,
+        }
+    }
+}
+
+#[derive(Default)]
+struct Verdict {
+    violations: Vec<(&'static str, String)>,
+    deliveries: u64,
+    updates_with_used: u64,
+    used_hist: [u64; 4],
+    filter_mattered: u64,
+    fanouts: u64,
+    timers: u64,
+    both_ready: u64,
+    removes: u64,
+    clock_calls: u64,
+    late_fan: u64,
+}
+
+impl Verdict {
+    fn v(&mut self, class: &'static str, what: String) {
+        if !self.violations.iter().any(|(c, _)| *c == class) {
+            self.violations.push((class, what));
+        }
+    }
+}
+
+fn judge(case: &Case, log: &[Ev]) -> Verdict {
+    let mut v = Verdict::default();
+    let mut pending: Vec<Item> = Vec::new();
+    let mut skipped: Vec<Item> = Vec::new();
+    // linear-order model (fold of the issued operations up to the one being processed)
+    let mut lin_reg: BTreeSet<u64> = BTreeSet::new();
+    let mut lin_usable: BTreeMap<u64, bool> = BTreeMap::new();
+    // real time: source controller wrappers that exist
+    let mut live: BTreeSet<u64> = BTreeSet::new();
+    let mut has_data: BTreeSet<u64> = BTreeSet::new();
+    let mut removed_delivered: BTreeSet<u64> = BTreeSet::new();
+    let mut last_used: Vec<u64> = Vec::new();
+    let late: BTreeSet<u64> = case
+        .srcs
+        .iter()
+        .enumerate()
+        .filter(|(_, s)| s.script.first() == Some(&Op::R))
+        .map(|(i, _)| id_of(i))
+        .collect();
+    // expected fan-out of the most recent steering message
+    let mut fan_expect: Option<(u32, BTreeSet<u64>, Vec<u64>)> = None;
+
+    fn apply(it: Item, lin_reg: &mut BTreeSet<u64>, lin_usable: &mut BTreeMap<u64, bool>) {
+        match it {
+            Item::M(..) => {}
+            Item::U(i, b) => {
+                if lin_reg.contains(&i) {
+                    lin_usable.insert(i, b);
+                }
+            }
+            Item::D(i) => {
+                lin_reg.remove(&i);
+                lin_usable.remove(&i);
+            }
+        }
+    }
+
+    let close_fan = |fan_expect: &mut Option<(u32, BTreeSet<u64>, Vec<u64>)>, v: &mut Verdict| {
+        if let Some((call, want, got)) = fan_expect.take() {
+            let mut g = got.clone();
+            g.sort_unstable();
+            let w: Vec<u64> = want.iter().copied().collect();
+            if g != w {
+                v.v(
+                    "C37:steer-fanout",
+                    format!("steering message of controller call #{call} reached source controllers {g:?}, live source controllers were {w:?}"),
+                );
+            }
+        }
+    };
+
+    for ev in log {
+        if !matches!(ev, Ev::Fan { .. } | Ev::Clock { .. }) {
+            close_fan(&mut fan_expect, &mut v);
+        }
+        match ev {
+            Ev::Step(c) => {
+                if matches!(c, Choice::Lm | Choice::Lt) {
+                    v.both_ready += 1;
+                }
+            }
+            Ev::Drain => {}
+            Ev::Add { id, .. } => {
+                lin_reg.insert(*id);
+                live.insert(*id);
+            }
+            Ev::Issue { src, op } => {
+                let id = id_of(*src as usize);
+                match op {
+                    Op::Up => pending.push(Item::U(id, true)),
+                    Op::Un => pending.push(Item::U(id, false)),
+                    Op::D => {
+                        pending.push(Item::D(id));
+                        live.remove(&id);
+                    }
+                    Op::R | Op::M => {}
+                }
+            }
+            Ev::Produced { id, tag } => pending.push(Item::M(*id, *tag)),
+            Ev::Msg { .. } | Ev::Usable { .. } | Ev::Remove { .. } => {
+                v.deliveries += 1;
+                let it = match ev {
+                    Ev::Msg { id, tag, .. } => Item::M(*id, *tag),
+                    Ev::Usable { id, usable } => Item::U(*id, *usable),
+                    Ev::Remove { id } => Item::D(*id),
+                    _ => unreachable!(),
+                };
+                if removed_delivered.contains(&it.id()) {
+                    v.v("C37:delivered-after-removal", format!("{it:?} reached the controller after remove_source({})", it.id()));
+                }
+                match pending.iter().position(|p| *p == it) {
+                    Some(0) => {
+                        pending.remove(0);
+                        apply(it, &mut lin_reg, &mut lin_usable);
+                    }
+                    Some(p) => {
+                        let same = pending[..p].iter().any(|q| q.id() == it.id());
+                        if same {
+                            v.v(
+                                "C37:source-fifo",
+                                format!("{it:?} reached the controller before the earlier operation(s) {:?} of the same source", &pending[..p]),
+                            );
+                        } else {
+                            v.v(
+                                "C37:global-order",
+                                format!("{it:?} reached the controller before the earlier completed operation(s) {:?} of other sources", &pending[..p]),
+                            );
+                        }
+                        let passed: Vec<Item> = pending.drain(..=p).collect();
+                        for (k, q) in passed.iter().enumerate() {
+                            apply(*q, &mut lin_reg, &mut lin_usable);
+                            if k < p {
+                                skipped.push(*q);
+                            }
+                        }
+                    }
+                    None => {
+                        if let Some(p) = skipped.iter().position(|q| *q == it) {
+                            skipped.remove(p); // late delivery, already reported when it was overtaken
+                        } else {
+                            v.v("C37:phantom-delivery", format!("{it:?} reached the controller but no such operation is outstanding (duplicate or out of band)"));
+                        }
+                    }
+                }
+                if let Ev::Remove { id } = ev {
+                    removed_delivered.insert(*id);
+                    v.removes += 1;
+                }
+                if let Ev::Msg { id, .. } = ev {
+                    has_data.insert(*id);
+                }
+            }
+            Ev::Timer { .. } => v.timers += 1,
+            Ev::Fan { src, call } => match fan_expect.as_mut() {
+                Some((c, _, got)) if *c == *call => {
+                    got.push(*src);
+                    if late.contains(src) {
+                        v.late_fan += 1;
+                    }
+                }
+                _ => v.v("C37:steer-fanout", format!("source controller {src} received a steering message of call #{call} outside that call's fan-out")),
+            },
+            Ev::Clock { .. } => v.clock_calls += 1,
+            Ev::Stale { id, what } => v.v(
+                "C37:stale-data-not-ignored",
+                format!("data for source {id} delivered after remove_source({id}) was not ignored: {what}"),
+            ),
+            Ev::Mirror { used } => {
+                if *used != last_used {
+                    v.v("C37:used-mirror", format!("synchronization_state() reports used sources {used:?}, the controller last reported {last_used:?}"));
+                }
+            }
+        }
+        // used-set oracle + fan-out bookkeeping for controller answers
+        let (used, steer, call, what) = match ev {
+            Ev::Msg { used, steer, call, id, tag, .. } => (used, *steer, *call, format!("measurement #{tag} of source {id}")),
+            Ev::Timer { used, steer, call, .. } => (used, *steer, *call, "timer expiry".to_string()),
+            _ => continue,
+        };
+        if let Some(u) = used {
+            v.updates_with_used += 1;
+            v.used_hist[u.len().min(3)] += 1;
+            last_used = u.clone();
+            for x in u {
+                if !lin_reg.contains(x) {
+                    v.v(
+                        "C37:used-unregistered",
+                        format!("clock update on {what} used source {x}, which is not registered at that point of the linear order (registered: {lin_reg:?})"),
+                    );
+                } else if lin_usable.get(x) != Some(&true) {
+                    v.v(
+                        "C37:used-unusable",
+                        format!("clock update on {what} used source {x}, whose last reported usability at that point is {:?}", lin_usable.get(x)),
+                    );
+                }
+            }
+            // did the registered/usable filter exclude a source that has data?
+            if has_data.iter().any(|x| !(lin_reg.contains(x) && lin_usable.get(x) == Some(&true))) {
+                v.filter_mattered += 1;
+            }
+        }
+        if steer {
+            v.fanouts += 1;
+            fan_expect = Some((call, live.clone(), Vec::new()));
+        }
+    }
+    close_fan(&mut fan_expect, &mut v);
+    if !pending.is_empty() || !skipped.is_empty() {
+        let mut lost = skipped.clone();
+        lost.extend(pending.iter().copied());
+        v.v("C37:lost-message", format!("operation(s) {lost:?} never reached the controller although the loop ran to quiescence"));
+    }
+    v
+}
+
+/// Implementation-visible outcome of an execution: the sequence of controller calls with
+/// their structural results. Float payloads of the real controller are left out (their
+/// last bits depend on HashMap iteration order inside KalmanClockController).
+fn outcome_hash(case_hash: u64, log: &[Ev]) -> u64 {
+    let mut acc: Vec<u64> = vec![case_hash];
+    for ev in log {
+        match ev {
+            Ev::Msg { id, tag, used, steer, next_ms, .. } => {
+                acc.push(common::hash_of(&(1u8, id, tag, used, steer, next_ms.is_some())))
+            }
+            Ev::Usable { id, usable } => acc.push(common::hash_of(&(2u8, id, usable))),
+            Ev::Remove { id } => acc.push(common::hash_of(&(3u8, id))),
+            Ev::Timer { used, steer, .. } => acc.push(common::hash_of(&(4u8, used, steer))),
+            Ev::Fan { src, .. } => acc.push(common::hash_of(&(5u8, src))),
+            Ev::Clock { kind, .. } => acc.push(common::hash_of(&(6u8, kind))),
+            Ev::Add { id, .. } => acc.push(common::hash_of(&(7u8, id))),
+            Ev::Produced { id, tag } => acc.push(common::hash_of(&(8u8, id, tag))),
+            _ => {}
+        }
+    }
+    common::hash_of(&acc)
+}
+
+fn render(log: &[Ev]) -> String {
+    let mut s = String::new();
+    for ev in log {
+        let t = match ev {
+            Ev::Step(c) => format!("[{}]", c.token()),
+            Ev::Drain => "[drain]".into(),
+            Ev::Issue { src, op } => format!("{}.{}", (b'a' + src) as char, op.ch()),
+            Ev::Mirror { used } => format!("state={used:?}"),
+            Ev::Add { id, oneway } => format!("add({id}{})", if *oneway { ",1w" } else { "" }),
+            Ev::Produced { id, tag } => format!("send(m{tag}@{id})"),
+            Ev::Msg { id, tag, used, steer, next_ms, .. } => {
+                format!("source_message({id},m{tag})->used={used:?},steer={steer},timer={}", next_ms.is_some())
+            }
+            Ev::Usable { id, usable } => format!("source_update({id},{usable})"),
+            Ev::Remove { id } => format!("remove_source({id})"),
+            Ev::Timer { used, steer, .. } => format!("time_update()->used={used:?},steer={steer}"),
+            Ev::Fan { src, call } => format!("steer#{call}->{src}"),
+            Ev::Clock { kind, .. } => format!("clock.{}", ["?", "set_frequency", "step_clock", "disable_ntp_algorithm", "error_estimate_update", "status_update"][*kind as usize % 6]),
+            Ev::Stale { id, what } => format!("STALE({id}:{what})"),
+        };
+        if !s.is_empty() {
+            s.push(' ');
+        }
+        s.push_str(&t);
+    }
+    s
+}
+
+// ---------------------------------------------------------------------------------
+// stateless DFS over schedules
+// ---------------------------------------------------------------------------------
+
+/// upper bound on the number of simultaneously enabled choices (3 sources + Lm + Lt, or + L + T)
+const SPLIT_RADIX: usize = 6;
+
+struct Dfs {
+    path: Vec<u8>,
+    widths: Vec<u8>,
+    fixed: usize,
+    taken: Vec<Choice>,
+}
+
+impl Driver for Dfs {
+    fn pick(&mut self, depth: usize, enabled: &[Choice]) -> Result<Option<usize>, String> {
+        if depth < self.path.len() {
+            let i = self.path[depth] as usize;
+            if i >= enabled.len() {
+                return Err(format!("choice {i} not enabled at depth {depth}"));
+            }
+            if depth < self.widths.len() {
+                self.widths[depth] = enabled.len() as u8;
+            } else {
+                self.widths.push(enabled.len() as u8);
+            }
+            self.taken.truncate(depth);
+            self.taken.push(enabled[i]);
+            Ok(Some(i))
+        } else {
+            self.path.push(0);
+            self.widths.truncate(depth);
+            self.widths.push(enabled.len() as u8);
+            self.taken.truncate(depth);
+            self.taken.push(enabled[0]);
+            Ok(Some(0))
+        }
+    }
+}
+
+impl Dfs {
+    fn new(prefix: &[u8]) -> Dfs {
+        Dfs { path: prefix.to_vec(), widths: Vec::new(), fixed: prefix.len(), taken: Vec::new() }
+    }
+    /// advance to the next schedule in DFS order; returns the depth of the branching
+    /// point (number of shared leading choices), or None when exhausted
+    fn advance(&mut self) -> Option<usize> {
+        let mut d = self.path.len().min(self.widths.len());
+        self.path.truncate(d);
+        while d > self.fixed {
+            d -= 1;
+            if self.path[d] + 1 < self.widths[d] {
+                self.path[d] += 1;
+                self.path.truncate(d + 1);
+                self.widths.truncate(d + 1);
+                return Some(d);
+            }
+        }
+        None
+    }
+    fn schedule_text(&self) -> String {
+        self.taken.iter().map(|c| c.token()).collect::<Vec<_>>().join(",")
+    }
+}
+
+struct Scripted {
+    choices: Vec<Choice>,
+}
+
+impl Driver for Scripted {
+    fn pick(&mut self, depth: usize, enabled: &[Choice]) -> Result<Option<usize>, String> {
+        let Some(want) = self.choices.get(depth) else {
+            // the trace is a prefix of a maximal schedule (e.g. recorded against a variant
+            // of the code that consumed messages differently): run to quiescence from here
+            return Ok(None);
+        };
+        enabled
+            .iter()
+            .position(|c| c == want)
+            .map(Some)
+            .ok_or_else(|| format!("step {depth}: {want:?} not enabled (enabled: {enabled:?})"))
+    }
+}
+
+#[derive(Default)]
+struct Tally {
+    schedules: u64,
+    nodes: u64,
+    steps: u64,
+    retries: u64,
+    outcomes: HashSet<u64>,
+    max_len: u64,
+    infeasible: u64,
+    v: Verdict,
+}
+
+fn explore_item(ctx: &Ctx, rt: &tokio::runtime::Runtime, case: &Case, prefix: &[u8], tally: &mut Tally) {
+    let mut dfs = Dfs::new(prefix);
+    let case_hash = common::hash_of(case);
+    let mut shared = 0usize;
+    loop {
+        dfs.taken.clear();
+        let ex = execute(rt, case, &mut dfs);
+        if let Some(e) = &ex.error {
+            if e.starts_with("driver:") && tally.schedules == 0 && dfs.fixed > 0 {
+                // the partition prefix does not exist in this case's schedule tree
+                return;
+            }
+            if e.contains("select! branch never taken") {
+                // the harness's model of the queue said "message and timer both ready" but only
+                // one of them was (only possible when the implementation consumes messages
+                // without telling the controller): this branch does not exist, prune it
+                tally.infeasible += 1;
+                match dfs.advance() {
+                    Some(d) => {
+                        shared = d;
+                        continue;
+                    }
+                    None => break,
+                }
+            }
+            ctx.violation("C37:machinery", format!("{e}"), format!("{};{}", case.text(), dfs.schedule_text()));
+            return;
+        }
+        if dfs.widths.len() < dfs.fixed || dfs.widths[..dfs.fixed].iter().any(|w| *w as usize > SPLIT_RADIX) {
+            ctx.violation("C37:machinery", "partition prefix longer than a schedule / radix too small".to_string(), format!("{};{}", case.text(), dfs.schedule_text()));
+            return;
+        }
+        let trace = || format!("{};{}", case.text(), dfs.schedule_text());
+        tally.schedules += 1;
+        tally.steps += ex.steps as u64;
+        tally.retries += ex.retries as u64;
+        tally.nodes += (ex.steps.saturating_sub(shared)) as u64;
+        tally.max_len = tally.max_len.max(ex.steps as u64);
+        if let Some(p) = &ex.panic {
+            ctx.violation("C37:panic", format!("code under test panicked (would abort the daemon): {p}"), trace());
+        } else {
+            let verdict = judge(case, &ex.log);
+            for (class, what) in &verdict.violations {
+                ctx.violation(class, what.clone(), trace());
+            }
+            tally.outcomes.insert(outcome_hash(case_hash, &ex.log));
+            let t = &mut tally.v;
+            t.deliveries += verdict.deliveries;
+            t.updates_with_used += verdict.updates_with_used;
+            for k in 0..4 {
+                t.used_hist[k] += verdict.used_hist[k];
+            }
+            t.filter_mattered += verdict.filter_mattered;
+            t.fanouts += verdict.fanouts;
+            t.timers += verdict.timers;
+            t.both_ready += verdict.both_ready;
+            t.removes += verdict.removes;
+            t.clock_calls += verdict.clock_calls;
+            t.late_fan += verdict.late_fan;
+        }
+        match dfs.advance() {
+            Some(d) => shared = d,
+            None => break,
+        }
+    }
+}
+
+// ---------------------------------------------------------------------------------
+// case enumeration
+// ---------------------------------------------------------------------------------
+
+/// all scripts of at most `max` operations over {M, U, u} with an optional final D
+fn scripts(max: usize) -> Vec<Vec<Op>> {
+    let mut out: Vec<Vec<Op>> = vec![vec![]];
+    let mut level: Vec<Vec<Op>> = vec![vec![]];
+    for _ in 0..max {
+        let mut next = Vec::new();
+        for s in &level {
+            for op in [Op::M, Op::Up, Op::Un, Op::D] {
+                let mut t = s.clone();
+                t.push(op);
+                out.push(t.clone());
+                if op != Op::D {
+                    next.push(t);
+                }
+            }
+        }
+        level = next;
+    }
+    out
+}
+
+fn with_r(s: &[Op]) -> Vec<Op> {
+    let mut v = vec![Op::R];
+    v.extend_from_slice(s);
+    v
+}
+
+struct Phase {
+    name: &'static str,
+    cases: Vec<Case>,
+    /// partition each case into prefix items of this depth (0 = one item per case)
+    split: usize,
+}
+
+fn src(i: usize, script: Vec<Op>) -> Src {
+    // A and C are two-way (NTP) sources, B is a one-way (sock / PPS style) source
+    Src { oneway: i == 1, script }
+}
+
+fn phases(quick: bool) -> Vec<Phase> {
+    let mut ph: Vec<Phase> = Vec::new();
+    let s3 = scripts(3);
+    let s2 = scripts(2);
+    let s1 = scripts(1);
+    let ne = |v: &Vec<Vec<Op>>| v.iter().filter(|s| !s.is_empty()).cloned().collect::<Vec<_>>();
+    // scripts that first report the source usable (the interesting ones for the real controller)
+    let u3: Vec<Vec<Op>> = s3.iter().filter(|s| s.first() == Some(&Op::Up)).cloned().collect();
+    let pairs = |kind: u8, timer: u8, sa: &Vec<Vec<Op>>, sb: &Vec<Vec<Op>>, late_b: bool, keep: &dyn Fn(&Vec<Op>, &Vec<Op>) -> bool| {
+        let mut cases = Vec::new();
+        for a in sa {
+            for b in sb {
+                if (a.is_empty() && b.is_empty()) || !keep(a, b) {
+                    continue;
+                }
+                let b2 = if late_b { with_r(b) } else { b.clone() };
+                cases.push(Case { kind, timer, srcs: vec![src(0, a.clone()), src(1, b2)] });
+            }
+        }
+        cases
+    };
+    let triples = |kind: u8, timer: u8, per: &Vec<Vec<Op>>| {
+        let mut cases = Vec::new();
+        for a in ne(per) {
+            for b in ne(per) {
+                for c in ne(per) {
+                    cases.push(Case { kind, timer, srcs: vec![src(0, a.clone()), src(1, b.clone()), src(2, c.clone())] });
+                }
+            }
+        }
+        cases
+    };
+    let all = |_: &Vec<Op>, _: &Vec<Op>| true;
+    // ---- both tiers (cheap phases first so that a loaded machine still reaches every kind)
+    let le5 = |a: &Vec<Op>, b: &Vec<Op>| a.len() + b.len() <= 5;
+    ph.push(Phase { name: "kalman-2x2-t1", cases: pairs(KIND_KALMAN, 1, &s2, &s2, false, &all), split: 0 });
+    ph.push(Phase { name: "kalman-2x2-late-t1", cases: pairs(KIND_KALMAN, 1, &s2, &ne(&s2), true, &all), split: 0 });
+    ph.push(Phase { name: "kalman-3x1-t1", cases: triples(KIND_KALMAN, 1, &s1), split: 0 });
+    ph.push(Phase { name: "stub-3x1-t1", cases: triples(KIND_STUB, 1, &s1), split: 0 });
+    ph.push(Phase { name: "stub-2x2-t2", cases: pairs(KIND_STUB, 2, &s2, &s2, false, &all), split: 0 });
+    ph.push(Phase { name: "stub-2x2-late-t1", cases: pairs(KIND_STUB, 1, &s2, &ne(&s2), true, &all), split: 0 });
+    ph.push(Phase { name: "kalman-2xU3-t0", cases: pairs(KIND_KALMAN, 0, &u3, &u3, false, &all), split: 0 });
+    ph.push(Phase { name: "stub-2x3-t0", cases: pairs(KIND_STUB, 0, &s3, &s3, false, &all), split: 0 });
+    if !quick {
+        ph.push(Phase { name: "stub-2x3-late-t0", cases: pairs(KIND_STUB, 0, &s3, &ne(&s3), true, &all), split: 0 });
+        ph.push(Phase { name: "kalman-2x3-t0", cases: pairs(KIND_KALMAN, 0, &s3, &s3, false, &all), split: 0 });
+        ph.push(Phase {
+            name: "kalman-2x3(<=5ops)-t1",
+            cases: pairs(KIND_KALMAN, 1, &s3, &s3, false, &le5),
+            split: 0,
+        });
+        ph.push(Phase { name: "stub-3x2-t0", cases: triples(KIND_STUB, 0, &s2), split: 0 });
+        ph.push(Phase { name: "kalman-3x2-t0", cases: triples(KIND_KALMAN, 0, &s2), split: 0 });
+        // three sources with three operations each: conflict-rich script triples
+        let sel: [[&str; 3]; 4] = [["UMD", "UMu", "UMM"], ["MUM", "UMD", "uMD"], ["UMM", "UMD", "MUD"], ["UMu", "MMD", "UMD"]];
+        let sc = |s: &str| s.chars().map(|c| Op::from_ch(c).unwrap()).collect::<Vec<_>>();
+        for (kind, take, name) in [(KIND_STUB, 4usize, "stub-3x3-selected-t0"), (KIND_KALMAN, 2, "kalman-3x3-selected-t0")] {
+            let cases = sel[..take]
+                .iter()
+                .map(|t| Case { kind, timer: 0, srcs: vec![src(0, sc(t[0])), src(1, sc(t[1])), src(2, sc(t[2]))] })
+                .collect();
+            ph.push(Phase { name, cases, split: 3 });
+        }
+        // by far the most expensive phase (every select! coin doubles the re-executions): last
+        ph.push(Phase { name: "stub-2x3-t1", cases: pairs(KIND_STUB, 1, &s3, &s3, false, &all), split: 0 });
+    }
+    ph
+}
+
+// ---------------------------------------------------------------------------------
+// check / replay
+// ---------------------------------------------------------------------------------
+
+fn replay(ctx: &Ctx, trace: &str) -> String {
+    let Some((case_s, sched_s)) = trace.split_once(';') else {
+        return "unparsable trace".into();
+    };
+    let Some(case) = Case::parse(case_s) else {
+        return "unparsable case".into();
+    };
+    let choices: Option<Vec<Choice>> = if sched_s.is_empty() { Some(vec![]) } else { sched_s.split(',').map(Choice::parse).collect() };
+    let Some(choices) = choices else {
+        return "unparsable schedule".into();
+    };
+    let rt = new_runtime();
+    let mut drv = Scripted { choices };
+    let ex = execute(&rt, &case, &mut drv);
+    let mut obs = String::new();
+    if let Some(e) = &ex.error {
+        obs.push_str(&format!("ERROR {e}; "));
+    }
+    if let Some(p) = &ex.panic {
+        ctx.violation("C37:panic", format!("code under test panicked: {p}"), trace);
+        obs.push_str(&format!("PANIC {p}; "));
+    } else if ex.error.is_none() {
+        let verdict = judge(&case, &ex.log);
+        for (class, what) in &verdict.violations {
+            ctx.violation(class, what.clone(), trace);
+            obs.push_str(&format!("VIOLATION {class}: {what}; "));
+        }
+    }
+    obs.push_str(&render(&ex.log));
+    obs
+}
+
+#[test]
+fn check() {
+    let ctx = Ctx::new("C37");
+    if let Some(t) = common::replay_trace() {
+        let a = replay(&ctx, &t);
+        let b = replay(&ctx, &t);
+        common::report_replay("C37", &a, &b, ctx.violation_count() > 0);
+        return;
+    }
+    ctx.rule(
+        "case = controller (recording stub | real KalmanClockController behind a recording proxy) x one script per source \
+         (A two-way, B one-way, C two-way; script = <=3 of measure / set_usable(true) / set_usable(false) with an optional final drop, \
+         optionally preceded by a late add_source); for each case EVERY maximal schedule is executed on the real \
+         TimeSyncControllerWrapper: all interleavings of the scripts' operations with every placement of the run() loop's \
+         one-message steps and of the timer expiry (both select! outcomes when message and timer are ready together). \
+         distinct & non-trivial = distinct (case, sequence of controller-visible calls with their structural results).",
+    );
+    ctx.assume("source-task operations are atomic at the granularity 'one wrapper call': every shared object has its own mutex, each critical section touches one object and the channel is a linearizable FIFO, so an operation overlapping the loop's processing of a message commutes with the part it overlaps");
+    ctx.assume("the linear order of the statement is the order in which operations complete (here: are issued); 'last reported usable' is evaluated on that order up to the operation the controller is processing");
+    ctx.assume("hook H5 (one loop iteration per poll) and the recording proxy Rec<T> do not change behaviour; tokio select! fairness: both branch outcomes are forced by re-execution");
+    ctx.assume("Kalman runs: maximum_source_uncertainty = 10 s, minimum_agreeing_sources = 1, sources stay in the initial filter phase (< 8 samples); float payloads are excluded from outcome identity");
+
+    let quick = ctx.quick();
+    let mut total_states = 0u64;
+    let mut capped = false;
+    let only = std::env::var("VERIF_C37_PHASE").ok();
+    for phase in phases(quick) {
+        if let Some(o) = &only {
+            // development aid: run a single phase (the evidence then says exhaustive=false)
+            if !phase.name.starts_with(o.as_str()) {
+                capped = true;
+                continue;
+            }
+        }
+        if ctx.over_budget() {
+            ctx.cap_hit(&format!("phase {} not started; earlier phases complete", phase.name));
+            capped = true;
+            continue;
+        }
+        let t0 = std::time::Instant::now();
+        // work items
+        let mut items: Vec<(usize, Vec<u8>)> = Vec::new();
+        for (ci, _) in phase.cases.iter().enumerate() {
+            if phase.split == 0 {
+                items.push((ci, vec![]));
+            } else {
+                for p in common::product(SPLIT_RADIX, phase.split) {
+                    items.push((ci, p.iter().map(|x| *x as u8).collect()));
+                }
+            }
+        }
+        let per_case_outcomes: std::sync::Mutex<BTreeMap<usize, HashSet<u64>>> = std::sync::Mutex::new(BTreeMap::new());
+        let agg = std::sync::Mutex::new(Tally::default());
+        common::par_for_with(items.len() as u64, 1, new_runtime, |rt, ix| {
+            let (ci, prefix) = &items[ix as usize];
+            let case = &phase.cases[*ci];
+            let mut tally = Tally::default();
+            explore_item(&ctx, rt, case, prefix, &mut tally);
+            if tally.schedules == 0 {
+                return;
+            }
+            if ix % 97 == 3 {
+                ctx.sample(format!("{}: {} schedules, {} distinct outcomes", case.text(), tally.schedules, tally.outcomes.len()));
+            }
+            ctx.distinct_many(tally.outcomes.iter().copied());
+            per_case_outcomes.lock().unwrap().entry(*ci).or_default().extend(tally.outcomes.iter().copied());
+            let mut a = agg.lock().unwrap();
+            a.schedules += tally.schedules;
+            a.nodes += tally.nodes;
+            a.steps += tally.steps;
+            a.retries += tally.retries;
+            a.infeasible += tally.infeasible;
+            a.max_len = a.max_len.max(tally.max_len);
+            let (t, s) = (&mut a.v, &tally.v);
+            t.deliveries += s.deliveries;
+            t.updates_with_used += s.updates_with_used;
+            for k in 0..4 {
+                t.used_hist[k] += s.used_hist[k];
+            }
+            t.filter_mattered += s.filter_mattered;
+            t.fanouts += s.fanouts;
+            t.timers += s.timers;
+            t.both_ready += s.both_ready;
+            t.removes += s.removes;
+            t.clock_calls += s.clock_calls;
+            t.late_fan += s.late_fan;
+        });
+        let a = agg.into_inner().unwrap();
+        let pco = per_case_outcomes.into_inner().unwrap();
+        let multi = pco.values().filter(|s| s.len() > 1).count() as u64;
+        let max_out = pco.values().map(|s| s.len()).max().unwrap_or(0) as u64;
+        let outcomes: u64 = pco.values().map(|s| s.len() as u64).sum();
+        let pre = if phase.name.starts_with("kalman") { "kalman" } else { "stub" };
+        ctx.add("cases", phase.cases.len() as u64);
+        ctx.add("evaluations", a.schedules);
+        ctx.add("schedules", a.schedules);
+        ctx.add(&format!("{pre}_schedules"), a.schedules);
+        ctx.add("transitions", a.steps);
+        ctx.add("select_retries", a.retries);
+        ctx.add("pruned_infeasible_select_branches", a.infeasible);
+        total_states += a.nodes;
+        ctx.add("controller_calls_delivered", a.v.deliveries);
+        ctx.add(&format!("{pre}_updates_reporting_used_sources"), a.v.updates_with_used);
+        for k in 0..4 {
+            ctx.add(&format!("{pre}_used_set_size_{}{}", k, if k == 3 { "+" } else { "" }), a.v.used_hist[k]);
+        }
+        ctx.add(&format!("{pre}_updates_where_filter_excluded_a_source_with_data"), a.v.filter_mattered);
+        ctx.add("steering_fanouts", a.v.fanouts);
+        ctx.add("steering_deliveries_to_late_registered_source", a.v.late_fan);
+        ctx.add("timer_expiries_handled", a.v.timers);
+        ctx.add("steps_with_message_and_timer_both_ready", a.v.both_ready);
+        ctx.add("removals_delivered", a.v.removes);
+        ctx.add(&format!("{pre}_clock_calls"), a.v.clock_calls);
+        ctx.add("cases_with_more_than_one_outcome", multi);
+        ctx.add("outcomes_summed_over_cases", outcomes);
+        ctx.max("max_outcomes_of_one_case", max_out);
+        ctx.max("longest_schedule_steps", a.max_len);
+        eprintln!("C37 phase {}: {} cases, {} schedules, {} steps, {:.1}s", phase.name, phase.cases.len(), a.schedules, a.steps, t0.elapsed().as_secs_f64());
+        ctx.note(
+            &format!("phase_{}", phase.name),
+            &format!(
+                "{} cases, {} schedules (all, no preemption bound), {} outcomes, {} cases with >1 outcome, {:.1}s",
+                phase.cases.len(),
+                a.schedules,
+                outcomes,
+                multi,
+                t0.elapsed().as_secs_f64()
+            ),
+        );
+    }
+    ctx.set("states", total_states);
+    ctx.note("bound", "complete: every schedule of every listed case (preemption bound = unbounded)");
+    ctx.exhaustive(ctx.get("schedules") > 0 && !capped);
+    ctx.finish();
+}
